@@ -2,6 +2,7 @@ mod backend;
 mod checks;
 mod e1;
 mod e1h;
+mod e1n;
 mod e3;
 mod e4;
 mod e6;
